@@ -115,6 +115,15 @@ def impl_eval(case):
                 o = cls.from_enc_bytes(cls(pin, card_number=pan).to_enc_bytes(ppk), ppk, card_number=pan)
                 return o.to_pvv(key, key_index=idx)
             st, out = guarded(rebuilt_enc)
+        elif case.get('via') == 'mixin4-reuse':
+            # ONE format-4 block object (it has no card number of its own) asked for the values of OTHER card numbers /
+            # indexes first: every call answers for the arguments of that call
+            def reuse4():
+                o = pb.Iso4AESPinBlockWithVisaPVV(pin, random_value=5)
+                for other in case['before']:
+                    o.to_pvv(other.get('key', key), other.get('idx', idx), other.get('pan', pan))
+                return o.to_pvv(key, key_index=idx, card_number=pan)
+            st, out = guarded(reuse4)
         elif case.get('via') == 'mixin4':
             st, out = guarded(lambda: pb.Iso4AESPinBlockWithVisaPVV(pin, random_value=5).to_pvv(
                 key, key_index=idx, card_number=pan))
@@ -251,6 +260,13 @@ def explore(run, tier):
         cases.append({'k': 'zmk', 'parts': perm})
         cases.append({'k': 'enczmk', 'parts': parts, 'mk': rkey(rng.choice([16, 24]))})
         cases.append({'k': 'kcv', 'key': rkey(rng.choice([16, 24])), 'n': rng.choice([6, 6, 4, 16, 1])})
+    # every check-value length 1..32 (the encryption of 16 zero bytes has 32 hex digits) and beyond (all 32 of them)
+    for n in list(range(1, 33)) + [33, 40, 64]:
+        cases.append({'k': 'kcv', 'key': rkey([16, 24][n % 2]), 'n': n})
+    for i in range(12):
+        pin, pan, idx, key = digits(4 + i % 9), digits(12 + i % 8), i % 10, rkey(16)
+        before = [{'pan': digits(12 + (i + j) % 8)} if j % 2 == 0 else {'idx': (idx + 1) % 10} for j in range(1 + i % 3)]
+        cases.append({'k': 'pvv', 'pin': pin, 'pan': pan, 'idx': idx, 'key': key, 'via': 'mixin4-reuse', 'before': before})
     cases.append({'k': 'zmk', 'parts': ['6D6BE51F04F76167491554FE25F7ABEF', '67499B2CF137DFCB9EA28FF757CD10A7']})
     # binary keys that LOOK like text (every byte an ASCII hex digit character, printable text, blanks)
     for kb in (b'0123456789ABCDEF', b'deadbeefcafe0123', b'0123456789abcdef01234567', b'                ', b'AAAAAAAAAAAAAAAA',
